@@ -524,7 +524,7 @@ fn absorb(st: &mut Stats, ctx: &Ctx, idx: usize, h: &History, trace: &Trace, vs:
                         *st.faults_fired.entry(kind.clone()).or_default() += 1;
                         st.fault_sites_fired.insert(format!("{kind}@{point}"));
                     }
-                    if !env.is_empty() {
+                    if env.iter().any(|(k, _)| k.starts_with("ANYTHING_VERIF_")) {
                         depth += 1;
                         st.faults_configured += 1;
                         let died = !matches!(c.exit, Exit::Code { code: 0 });
@@ -539,6 +539,9 @@ fn absorb(st: &mut Stats, ctx: &Ctx, idx: usize, h: &History, trace: &Trace, vs:
                             st.faults_not_reached += 1;
                         }
                     } else if !c.stdout.is_empty() {
+                        if !env.is_empty() {
+                            *st.probes.entry("cli-run-in-another-environment (TERM / NO_COLOR / RUST_LOG / LANG)".into()).or_default() += 1;
+                        }
                         nontrivial = nontrivial || h.property == "C19";
                         if c.stdout.lines().filter(|l| !l.starts_with(' ') && !l.is_empty() && !l.starts_with('#') && !l.chars().next().map(|c| c.is_ascii_digit()).unwrap_or(false) || l.chars().next().map(|c| c.is_ascii_digit()).unwrap_or(false) && !l.contains(" │")).count() >= 2 {
                             *st.probes.entry("cli-printed-several-results".into()).or_default() += 1;
